@@ -346,10 +346,20 @@ def case_api(case):
                 mf = np.ma.array(fld, mask=[[i == ia for i in range(n)], [i == ib for i in range(n)]])
                 for edges in edge_sets((3,))[:2]:
                     exp, cnt = ov.unstructured(eff, edges, dist, "m")
-                    bc, g, c = gs.vario_estimate(pos, mf, edges, mask=np.array([i == im for i in range(n)]), return_counts=True)
+                    region = np.array([i == im for i in range(n)])
+                    bc, g, c = gs.vario_estimate(pos, mf, edges, mask=region, return_counts=True)
                     nsub += 1
                     if not (np.array_equal(c, cnt) and np.allclose(g, exp, rtol=1e-12, atol=1e-14)):
                         r.fail("vario_estimate with masked fields (different masks) + NaN + explicit mask == pair enumeration over each field's valid points", {"values": g.tolist(), "counts": c.tolist()}, {"values": exp.tolist(), "counts": cnt.tolist()}, "", missing=[ia, ib, im], edges=list(edges), dim=dim)
+                    if ia == ib:
+                        # the same region mask object used again for a complete field: only the region is left out
+                        eff2 = base.copy()
+                        eff2[:, im] = np.nan
+                        exp2, cnt2 = ov.unstructured(eff2, edges, dist, "m")
+                        bc, g, c = gs.vario_estimate(pos, np.ma.array(base.copy(), mask=np.zeros(base.shape, dtype=bool)), edges, mask=region, return_counts=True)
+                        nsub += 1
+                        if not (np.array_equal(c, cnt2) and np.allclose(g, exp2, rtol=1e-12, atol=1e-14)):
+                            r.fail("explicit mask array used for a second call (complete fields) == pair enumeration without the masked region", {"values": g.tolist(), "counts": c.tolist()}, {"values": exp2.tolist(), "counts": cnt2.tolist()}, "", missing=[ia, ib, im], edges=list(edges), dim=dim)
     r.evals += nsub
     return r.done(outcome=[kind, nsub], sub={"estimates": nsub})
 
